@@ -252,14 +252,14 @@ structure GrowStep (c0 c : Cbuf) (nfree len0 : Nat) : Prop where
   /-- grow before you lose: either the request now fits, or the buffer is at its maximum -/
   enough : len0 ≤ c.size - c.used ∨ c.size = c.maxsize
 
-theorem maybeGrow_ok {c0 : Cbuf} (hi : Inv c0) (len0 : Nat) :
-    GrowStep c0 (maybeGrow c0 len0).1 (maybeGrow c0 len0).2 len0 := by
+theorem maybeGrow_ok {c0 : Cbuf} (hi : Inv c0) (len0 : Nat) (pol : Policy := chunkPolicy) [Admissible pol] :
+    GrowStep c0 (maybeGrow c0 len0 pol).1 (maybeGrow c0 len0 pol).2 len0 := by
   have := hi.used; have := hi.smax
   unfold maybeGrow
   by_cases h : len0 > c0.size - c0.used ∧ c0.size < c0.maxsize
   · simp only [h, and_self, if_true]
-    have g := grow_ok hi (len0 - (c0.size - c0.used)) h.2 (by omega)
-    have hen := g.enough (len0 - (c0.size - c0.used)) rfl
+    have g := grow_ok hi (len0 - (c0.size - c0.used)) h.2 (by omega) pol
+    have hen := g.enough (len0 - (c0.size - c0.used)) pol rfl
     refine ⟨g.inv, g.contents, g.used, g.mode, g.minsize, g.maxsize, by rw [g.size]; omega, ?_, ?_⟩
     · rw [g.size, g.used]; omega
     · rw [g.size, g.used, g.maxsize]; rw [g.size] at hen; omega
@@ -275,16 +275,17 @@ structure CoreOk (c : Cbuf) (len : Nat) (src : Src) (r : WResult) : Prop where
     Inv r.c ∧ r.c.size = c.size ∧ r.c.mode = c.mode ∧ r.c.minsize = c.minsize ∧ r.c.maxsize = c.maxsize ∧
     contents r.c = (contents c ++ src.avail len).drop ((contents c ++ src.avail len).length - c.size)
 
-theorem writer_ok {c0 : Cbuf} (hi : Inv c0) (len0 : Nat) (hl : 0 < len0) (src : Src) (hs : src.ok len0) :
-    GrowStep c0 (maybeGrow c0 len0).1 (maybeGrow c0 len0).2 len0 ∧
-    match effLen (maybeGrow c0 len0).1 len0 with
-    | .none => (writer c0 len0 src).ret = -1 ∧ (writer c0 len0 src).ndropped = 0 ∧
-               (writer c0 len0 src).c = (maybeGrow c0 len0).1
-    | .some len => 0 < len ∧ len ≤ len0 ∧ CoreOk (maybeGrow c0 len0).1 len src (writer c0 len0 src) := by
-  have hg := maybeGrow_ok hi len0
+theorem writer_ok {c0 : Cbuf} (hi : Inv c0) (len0 : Nat) (hl : 0 < len0) (src : Src) (hs : src.ok len0)
+    (pol : Policy := chunkPolicy) [Admissible pol] :
+    GrowStep c0 (maybeGrow c0 len0 pol).1 (maybeGrow c0 len0 pol).2 len0 ∧
+    match effLen (maybeGrow c0 len0 pol).1 len0 with
+    | .none => (writer c0 len0 src pol).ret = -1 ∧ (writer c0 len0 src pol).ndropped = 0 ∧
+               (writer c0 len0 src pol).c = (maybeGrow c0 len0 pol).1
+    | .some len => 0 < len ∧ len ≤ len0 ∧ CoreOk (maybeGrow c0 len0 pol).1 len src (writer c0 len0 src pol) := by
+  have hg := maybeGrow_ok hi len0 pol
   refine ⟨hg, ?_⟩
   unfold writer
-  generalize maybeGrow c0 len0 = p at hg
+  generalize maybeGrow c0 len0 pol = p at hg
   obtain ⟨c, nfree⟩ := p
   simp only at hg ⊢
   cases hel : effLen c len0 with
